@@ -132,6 +132,12 @@ func checkC03(c *Ctx) {
 			deflt = append(deflt, h)
 			continue
 		}
+		if _, ok := fieldLoad(recv, G, "Mux", "unbindRoute"); ok {
+			// the optional unbind route consulted by the mux itself: only for Unbind requests, only when set
+			okU := hasFact(h.Block(), true, c.isUnbindAtom()) && nilFact(h.Block(), false, func(x ssa.Value) bool { _, ok := fieldLoad(x, G, "Mux", "unbindRoute"); return ok })
+			R.Check(okU, "C03-order", "(*Mux).serve: unbind route only for Unbind requests", c.pos(h), "guarded by routeOp == unbind and unbindRoute != nil", "the unbind route's handler can be given a request that is not an Unbind (or the route may be nil)")
+			continue
+		}
 		if sel.isFirstMatch(recv, h.Block()) {
 			inLoop = append(inLoop, h)
 			R.OK("C03-order", "(*Mux).serve: handler of the first route whose match(req) is true", c.pos(h), sel.why)
@@ -810,6 +816,21 @@ func (c *Ctx) checkDispatch(m *serverModel) {
 			ok = ok && isThisIterationWriter(an.StripX(args[1]), m) && isThisRequest(an.StripX(args[2]), m)
 		}
 		R.Check(ok, "C03-dispatch", fname(m.reqFn)+": serve(w, r) exactly once", c.P.Pos(m.reqFn.Pos()), "one call on every path with this iteration's writer and request", "the per-request goroutine does not call router.serve exactly once with this iteration's (w, r)")
+		c.checkOwnIteration("C03-dispatch", m)
+	}
+}
+
+// checkOwnIteration: the per-request goroutine runs later than the statement
+// that starts it; what it reads through captured variables is this iteration's
+// request and writer only if those variables are per-iteration ones (allocated
+// anew on every pass of the loop), not variables the read loop assigns again.
+func (c *Ctx) checkOwnIteration(rule string, m *serverModel) {
+	if m.reqGo == nil {
+		return
+	}
+	for _, cv := range capturedCells(m.serve, m.reqGo) {
+		c.R.Check(!cv.bad, rule, fname(m.serve)+": request goroutine sees its own iteration's "+cv.name, c.pos(m.reqGo), "captured variable is allocated per iteration and not assigned after the go statement",
+			"the request goroutine captures "+cv.name+", which the read loop assigns again for the next request: a handler can be given a later request (one request handled twice, another dropped, IDs out of order)")
 	}
 }
 
